@@ -25,3 +25,24 @@ Theorem C07_bare_inline_fragment_converts :
   exists r, generate_types w_schema w_cfg [] [[LOther; LOther; LOther; LOther; LOther]] [w_bare_op] = Ok r.
 Proof. exact bare_inline_fragment_converts. Qed.
 Print Assumptions C07_bare_inline_fragment_converts.
+
+(* PARTIAL no-panic theorem for the whole converter (convert.go + the directive validation it
+   calls): on a program whose names resolve -- every type named by a field, variable, type
+   condition or fragment exists, every spread has its fragment, the root type exists: what
+   gqlparser's validator guarantees and Corr/Convcorr.v re-checks on every explored program --
+   NONE of the unchecked map / pointer dereferences of the Go code can be reached, for every
+   configuration, source text and fuel.  What remains possible in the model is only the family
+   of flatten INDEX sites (fields[i] with i the position of the spread); they are exercised by
+   the correspondence, not excluded by this theorem. *)
+From Verif Require Import Gen.Wf Proofs.ConvertNoPanic.
+Theorem C07_converter_panics_only_at_flatten_index_sites_partial :
+  forall sch cfg frags srcs ops,
+  schema_okb sch = true -> frags_okb sch frags = true -> forallb (op_okb sch frags) ops = true ->
+  forall s, generate_types sch cfg frags srcs ops = Panic s -> flat_site s = true.
+Proof. exact converter_panics_only_at_flatten_index_sites. Qed.
+Print Assumptions C07_converter_panics_only_at_flatten_index_sites_partial.
+
+Theorem C07_converter_hypotheses_satisfiable :
+  schema_okb w_schema = true /\ frags_okb w_schema [w_frag] = true /\ forallb (op_okb w_schema [w_frag]) [w_op] = true.
+Proof. exact w_program_is_wf. Qed.
+Print Assumptions C07_converter_hypotheses_satisfiable.
